@@ -40,6 +40,7 @@ using SchedulerLock = std::unique_lock<std::recursive_mutex>;
 #include SNIP_ENFORCE_TTL
 #include SNIP_MANIFEST_TTL
 #include SNIP_VALIDATE_SHARDS
+#include SNIP_AUTO
 }
 void Node::note_local_seed(const ChunkId&) { ++g_seed_notes; }
 void Node::broadcast_manifest(const protocol::Manifest&) { ++g_broadcasts; }
